@@ -31,6 +31,10 @@ const LOCK_POLL_INTERVAL_MS: u64 = 50;
 /// Panics if system time is before UNIX epoch (should never happen in practice).
 #[must_use]
 pub fn current_unix_timestamp() -> u64 {
+    #[cfg(feature = "verif-hooks")]
+    if let Some(t) = crate::verif_hooks::now_override() {
+        return t;
+    }
     std::time::SystemTime::now()
         .duration_since(std::time::UNIX_EPOCH)
         .expect("system time before UNIX_EPOCH")
@@ -42,6 +46,10 @@ pub fn current_unix_timestamp() -> u64 {
 /// Use this variant in contexts where panicking is not acceptable (e.g., formatting).
 #[must_use]
 pub fn try_current_unix_timestamp() -> Option<u64> {
+    #[cfg(feature = "verif-hooks")]
+    if let Some(t) = crate::verif_hooks::now_override() {
+        return Some(t);
+    }
     std::time::SystemTime::now()
         .duration_since(std::time::UNIX_EPOCH)
         .ok()
@@ -199,6 +207,8 @@ pub fn try_lock_exclusive_with_timeout(
     file: &File,
     timeout_ms: u64,
 ) -> std::result::Result<(), LockError> {
+    #[cfg(feature = "verif-hooks")]
+    let timeout_ms = crate::verif_hooks::lock_timeout_ms(timeout_ms);
     let start = Instant::now();
     let timeout = Duration::from_millis(timeout_ms);
     let poll_interval = Duration::from_millis(LOCK_POLL_INTERVAL_MS);
@@ -230,6 +240,8 @@ pub fn try_lock_shared_with_timeout(
     file: &File,
     timeout_ms: u64,
 ) -> std::result::Result<(), LockError> {
+    #[cfg(feature = "verif-hooks")]
+    let timeout_ms = crate::verif_hooks::lock_timeout_ms(timeout_ms);
     let start = Instant::now();
     let timeout = Duration::from_millis(timeout_ms);
     let poll_interval = Duration::from_millis(LOCK_POLL_INTERVAL_MS);
@@ -277,6 +289,8 @@ impl<'a> SharedLockGuard<'a> {
     /// tracks that no lock was acquired (no unlock on drop).
     #[must_use]
     pub fn try_acquire(file: &'a File, timeout_ms: u64, context: &str, path: &Path) -> Self {
+        #[cfg(feature = "verif-hooks")]
+        crate::verif_hooks::point("load:after_open");
         let locked = match try_lock_shared_with_timeout(file, timeout_ms) {
             Ok(()) => true,
             Err(e) => {
@@ -288,6 +302,8 @@ impl<'a> SharedLockGuard<'a> {
                 false
             }
         };
+        #[cfg(feature = "verif-hooks")]
+        crate::verif_hooks::point("load:after_lock");
         Self { file, locked }
     }
 
@@ -377,11 +393,15 @@ pub(crate) fn atomic_write_with_lock_timeout(
     file_description: &str,
     timeout_ms: u64,
 ) -> Result<SaveOutcome> {
+    #[cfg(feature = "verif-hooks")]
+    crate::verif_hooks::point("aw:start");
     // Ensure parent directory exists
     ensure_parent_dir(path).map_err(|e| {
         SlocGuardError::io_with_context(e, path.to_path_buf(), "create parent directory")
     })?;
 
+    #[cfg(feature = "verif-hooks")]
+    crate::verif_hooks::point("aw:after_mkparent");
     // Generate unique temp filename in same directory (required for atomic rename)
     let parent = path.parent().unwrap_or_else(|| Path::new("."));
     let file_stem = path.file_name().and_then(|n| n.to_str()).unwrap_or("file");
@@ -396,19 +416,27 @@ pub(crate) fn atomic_write_with_lock_timeout(
         let temp_file = File::create(&temp_path).map_err(|e| {
             SlocGuardError::io_with_context(e, temp_path.clone(), "create temp file")
         })?;
+        #[cfg(feature = "verif-hooks")]
+        crate::verif_hooks::point("aw:after_create_temp");
         let mut writer = io::BufWriter::new(&temp_file);
         writer.write_all(content).map_err(|e| {
             SlocGuardError::io_with_context(e, temp_path.clone(), "write temp file")
         })?;
+        #[cfg(feature = "verif-hooks")]
+        crate::verif_hooks::point("aw:after_write");
         writer.flush().map_err(|e| {
             SlocGuardError::io_with_context(e, temp_path.clone(), "flush temp file")
         })?;
+        #[cfg(feature = "verif-hooks")]
+        crate::verif_hooks::point("aw:after_flush");
         // Sync to disk before rename for durability
         temp_file
             .sync_all()
             .map_err(|e| SlocGuardError::io_with_context(e, temp_path.clone(), "sync temp file"))?;
     }
 
+    #[cfg(feature = "verif-hooks")]
+    crate::verif_hooks::point("aw:after_fsync");
     // Acquire exclusive lock on target file (create if needed, don't truncate)
     let lock_file = OpenOptions::new()
         .write(true)
@@ -417,6 +445,8 @@ pub(crate) fn atomic_write_with_lock_timeout(
         .open(path)
         .map_err(|e| SlocGuardError::io_with_context(e, path.to_path_buf(), "open for lock"))?;
 
+    #[cfg(feature = "verif-hooks")]
+    crate::verif_hooks::point("aw:after_open_target");
     if let Err(e) = try_lock_exclusive_with_timeout(&lock_file, timeout_ms) {
         // temp_guard will clean up on drop
         crate::output::print_warning_full(
@@ -427,6 +457,8 @@ pub(crate) fn atomic_write_with_lock_timeout(
         return Ok(SaveOutcome::Skipped);
     }
 
+    #[cfg(feature = "verif-hooks")]
+    crate::verif_hooks::point("aw:after_lock");
     // Atomic rename: temp → target
     // On Unix this is truly atomic. On Windows, we need to remove target first.
     #[cfg(windows)]
@@ -460,9 +492,13 @@ pub(crate) fn atomic_write_with_lock_timeout(
     {
         fs::rename(&temp_path, path)
             .map_err(|e| SlocGuardError::io_with_context(e, path.to_path_buf(), "rename"))?;
+        #[cfg(feature = "verif-hooks")]
+        crate::verif_hooks::point("aw:after_rename");
         // Note: unlock_file is best-effort; dropping lock_file closes the handle
         // anyway, releasing the lock as a side effect.
         unlock_file(&lock_file);
+        #[cfg(feature = "verif-hooks")]
+        crate::verif_hooks::point("aw:after_unlock");
     }
 
     // Rename succeeded, don't remove the (now renamed) temp file
